@@ -73,7 +73,7 @@ class SRegistry(E.RBQLTableRegistry):
 
 
 def run_one(q, sched, tid, out):
-    it = SIter([list(r) for r in q['A']], None, 'a', sched, tid)
+    it = SIter([list(r) for r in q['A']], q.get('hdrA'), 'a', sched, tid)
     wr = SWriter(sched, tid)
     reg = None if q.get('B') is None else SRegistry([list(r) for r in q['B']], sched, tid)
     err = None
